@@ -15,7 +15,7 @@
 EXTENDS Naturals, Sequences
 
 CoreIds == {"w", "two", "empty", "bsn", "nl", "numstr", "int", "float", "posexp", "t", "null", "ref", "uni", "flow", "chain", "syn", "tens", "qop", "tens3", "slashes", "nlsp", "ann", "ctor1", "holo", "l0", "l2", "l3", "lnest", "lmatrix", "lmap", "lfalsy", "lq", "lslash", "lexpr", "z1", "zpy", "ztrail", "zempty"}
-FullIds == {"three", "quote", "bslash", "tab", "truestr", "nullstr", "vsstr", "truedot", "neg", "zero", "one", "fzero", "fone", "big", "exp", "negexp", "bigexp", "intexp", "f", "ver", "verpre", "var", "vartyped", "ref2b", "path", "hyph", "colon", "pct", "emoji", "alt", "con", "cat", "at", "mixed", "syn3", "slash2", "relpath", "abspath", "docpath", "nllead", "ctor2", "ctor0", "holoenum", "l1", "lnullmap", "lemptymap", "ltq", "lann", "lpattern", "z4", "ztab", "zblank3", "l01", "zblank"}
+FullIds == {"three", "quote", "bslash", "tab", "truestr", "nullstr", "vsstr", "truedot", "neg", "zero", "one", "fzero", "fone", "big", "exp", "negexp", "bigexp", "intexp", "f", "ver", "verpre", "var", "vartyped", "ref2b", "path", "hyph", "colon", "pct", "emoji", "alt", "con", "cat", "at", "mixed", "syn3", "slash2", "relpath", "abspath", "docpath", "sjl", "sje", "sjo", "nllead", "ctor2", "ctor0", "holoenum", "l1", "lnullmap", "lemptymap", "ltq", "lann", "lpattern", "z4", "ztab", "zblank3", "l01", "zblank"}
 ValIds == CoreIds \cup FullIds
 ZoneIds == {"z1", "zpy", "z4", "ztrail", "zempty", "ztab", "zblank3", "zblank"}
 ListIds == {"holo", "holoenum", "l0", "l1", "l2", "l3", "lnest", "lmatrix", "lmap", "lfalsy", "lnullmap", "lemptymap", "lq", "ltq", "lslash", "lexpr", "lann", "lpattern", "l01"}
@@ -80,6 +80,9 @@ Abs(v) ==
     [] v = "relpath" -> [t |-> "str", s |-> "./a.py", xs |-> <<>>]
     [] v = "abspath" -> [t |-> "str", s |-> "/etc/hosts", xs |-> <<>>]
     [] v = "docpath" -> [t |-> "str", s |-> "docs/x.md", xs |-> <<>>]
+    [] v = "sjl" -> [t |-> "str", s |-> "[1, 2]", xs |-> <<>>]
+    [] v = "sje" -> [t |-> "str", s |-> "[]", xs |-> <<>>]
+    [] v = "sjo" -> [t |-> "str", s |-> "{U007B}}", xs |-> <<>>]
     [] v = "nlsp" -> [t |-> "str", s |-> "keeps its space {U000A}next", xs |-> <<>>]
     [] v = "nllead" -> [t |-> "str", s |-> "a{U000A}  b", xs |-> <<>>]
     [] v = "ann" -> [t |-> "str", s |-> "ATHENA<wisdom>", xs |-> <<>>]
@@ -213,6 +216,9 @@ Spell(v) ==
     [] v = "abspath" -> <<<<[k |-> "first", c |-> <<"\"/etc/hosts\"">>]>>>>
     [] v = "docpath" -> <<<<[k |-> "first", c |-> <<"docs/x.md">>]>>,
         <<[k |-> "first", c |-> <<"\"docs/x.md\"">>]>>>>
+    [] v = "sjl" -> <<<<[k |-> "first", c |-> <<"\"[1, 2]\"">>]>>>>
+    [] v = "sje" -> <<<<[k |-> "first", c |-> <<"\"[]\"">>]>>>>
+    [] v = "sjo" -> <<<<[k |-> "first", c |-> <<"\"{}\"">>]>>>>
     [] v = "nlsp" -> <<<<[k |-> "first", c |-> <<"\"keeps its space \\nnext\"">>]>>,
         <<[k |-> "first", c |-> <<"@TQ", "\"\"\"keeps its space ">>], [k |-> "raw", c |-> <<"next\"\"\"">>]>>>>
     [] v = "nllead" -> <<<<[k |-> "first", c |-> <<"\"a\\n  b\"">>]>>,
